@@ -57,5 +57,9 @@ static Register r5("c04.n2s3k6", "C04", "all dense members of TA(2,{a:0,b:0,f:1,
 static Register r6("c04.n3s3pk5", "C04", "all dense members of TA(3,{a:0,f:1,g:2},<=5) x 6 numberings x 2 orders", [](Env& e) { body(e, "c04.n3s3pk5", 3, dom::Sigma3p(), 5); });
 static Register r7("c04.n2afhk3", "C04", "all dense members of TA(2,{a:0,f:1,h:3},<=3) x 2 numberings x 2 orders (ternary rules)", [](Env& e) { body(e, "c04.n2afhk3", 2, dom::SigmaAFH(), 3); });
 static Register r8("c04.n3ahk3", "C04", "all dense members of TA(3,{a:0,h:3},<=3) x 6 numberings x 2 orders", [](Env& e) { body(e, "c04.n3ahk3", 3, dom::SigmaAH(), 3); });
+static Register r10("c04.n4abfk3", "C04", "all dense members of TA(4,{a:0,b:0,f:1},<=3 rules) x 24 numberings x 2 orders (word-like: chains)", [](Env& e) { body(e, "c04.n4abfk3", 4, dom::SigmaABF(), 3); });
+static Register r11("c04.n4abfk4", "C04", "all dense members of TA(4,{a:0,b:0,f:1},<=4) x 24 numberings x 2 orders", [](Env& e) { body(e, "c04.n4abfk4", 4, dom::SigmaABF(), 4); });
+static Register r13("c04.n4abfk5", "C04", "all dense members of TA(4,{a:0,b:0,f:1},<=5) x 24 numberings x 2 orders", [](Env& e) { body(e, "c04.n4abfk5", 4, dom::SigmaABF(), 5); });
+static Register r12("c04.n3abfk6", "C04", "all dense members of TA(3,{a:0,b:0,f:1},<=6) x 6 numberings x 2 orders", [](Env& e) { body(e, "c04.n3abfk6", 3, dom::SigmaABF(), 6); });
 static Register r9("c04.n2afhk4", "C04", "all dense members of TA(2,{a:0,f:1,h:3},<=4)", [](Env& e) { body(e, "c04.n2afhk4", 2, dom::SigmaAFH(), 4); });
 }  // namespace c04
